@@ -79,3 +79,340 @@ class ToPlain(Contract):
 
     def frame_ok(self, I, inp, obj, name):
         return False
+
+
+# ----------------------------------------------------------------------------------------------- the parser
+def join_term(I, v):
+    """text of "".join(acc) for the accumulator list"""
+    from pyvc.builtins_ import str_join
+    v = I.force(v)
+    if isinstance(v, list):
+        return mk_str(ops.concat_strs(I, [x for x in v]))
+    return str_join(ops.sv(v).t)
+
+
+class ParserLoop(LoopSpec):
+    modifies = {"r": ("seq", M.PART), "acc": ("seq", "str"), "escaped": "bool"}
+
+    def inv(self, I, env, done, rest, total):
+        esc, escape = bterm(env["escaped"]), bterm(env["escape"])
+        r = ops.seq_term(I, env["r"], M.PART)
+        acc = join_term(I, env["acc"])
+        accl = ops.seq_term(I, env["acc"], "str")
+        return [("atoms(r) ++ lits(acc) ++ sp(escaped, unread) == sp(False, s)",
+                 z3.Concat(M.atoms(r), M.lits(acc), M.sp(esc, rest, escape)) == M.sp(z3.BoolVal(False), total, escape)),
+                ("acc is empty iff its text is empty", (z3.Length(accl) == 0) == (z3.Length(acc) == 0))]
+
+    def hints(self, I, env, phase, x, done, rest2, total):
+        esc, escape = bterm(env["escaped"]), bterm(env["escape"])
+        r = ops.seq_term(I, env["r"], M.PART)
+        acc = join_term(I, env["acc"])
+        P = M.PartSort()
+        if phase == "entry":
+            return [M.atoms_nil(), M.lits_nil()]
+        if phase == "pre":
+            bs = z3.StringVal("\\")
+            return [M.sp_cons(esc, x, rest2, escape), M.lits_snoc(acc, x), M.lits_snoc(acc, bs), M.lits_snoc(z3.Concat(acc, bs), x), M.lits_nil(),
+                    M.atoms_snoc(r, P.PStr(acc)), M.atoms_snoc(r, P.PWM), M.atoms_snoc(r, P.PWS),
+                    M.atoms_snoc(z3.Concat(r, z3.Unit(P.PStr(acc))), P.PWM), M.atoms_snoc(z3.Concat(r, z3.Unit(P.PStr(acc))), P.PWS)]
+        if phase == "exit":
+            bs = z3.StringVal("\\")
+            return [M.sp_nil(esc, escape), M.lits_nil(), M.atoms_nil(), M.lits_snoc(acc, bs), M.atoms_snoc(r, P.PStr(acc)), M.atoms_snoc(r, P.PStr(z3.Concat(acc, bs)))]
+        return []
+
+
+@register
+class SigmaStringInit(Contract):
+    """the parser: the parts denote exactly the atoms the Sigma specification gives the source text"""
+    id = "C05.SigmaString.__init__"
+    target = "sigma.types:SigmaString.__init__"
+    props = ("C05",)
+    assumed = ["definitions of sp / lits / atoms are supplied as instances of their defining equations (explicit unfolding)", '"".join(list of str) is concatenation']
+
+    def setup(self, E):
+        M.install_part_adt(E)
+        E.loop_invariants[(self.target, 0)] = ParserLoop()
+
+    def args(self, I):
+        s = I.fresh("s", "str")
+        esc = I.fresh("escape", "bool")
+        me = SObj(I.E.index.lookup("sigma.types:SigmaString"), {})
+        return {"self": me, "args": [s, esc], "s": s, "escape": esc}
+
+    def post(self, I, inp, r):
+        me = inp["self"]
+        I.ctx.require("s" in me.fields and "original" in me.fields, "sets s and original")
+        I.ctx.require(ops.mk_bool_term(ops.py_eq(I, me.fields["original"], inp["s"])), "original is the source text")
+        I.ctx.require(M.atoms(ops.seq_term(I, me.fields["s"], M.PART)) == M.sp(z3.BoolVal(False), inp["s"].t, inp["escape"].t), "atoms(parts) == sp(source text)")
+
+    def frame_ok(self, I, inp, obj, name):
+        return obj is inp["self"] and name in ("s", "original")
+
+    def model_terms(self, inp):
+        return {"s": inp["s"].t, "escape": inp["escape"].t}
+
+    def replay(self, values):
+        from sigma.types import SigmaString
+        s, esc = values.get("s", ""), bool(values.get("escape", True))
+        if not isinstance(s, str):
+            return None
+        got = M.atoms_native(SigmaString(s, esc).s)
+        want = M.sp_native(s, esc)
+        return None if got == want else f"SigmaString({s!r}, escape={esc}) has atoms {got}, the specification gives {want}"
+
+    def candidates(self):
+        import itertools
+        for n in range(0, 5):
+            for t in itertools.product("a*?\\%", repeat=n):
+                for e in (True, False):
+                    yield {"s": "".join(t), "escape": e}
+
+
+# ----------------------------------------------------------------------------------------------- convert(): target encoding
+def K_of(env_or_inp):
+    """configuration terms (esc_none, esc, wm_none, wm, ws_none, ws, escaped, filter) from argument values"""
+    return env_or_inp
+
+
+def enc_char(K, c):
+    """encoding of one literal character"""
+    return z3.If(z3.Contains(K["filter"], c), z3.StringVal(""), z3.If(z3.And(z3.Contains(K["escaped"], c), z3.Not(K["esc_none"])), z3.Concat(K["esc"], c), c))
+
+
+def kargs(K):
+    return [K["esc_none"], K["esc"], K["escaped"], K["filter"]]
+
+
+def encs(K, s):
+    """encoding of a literal text (per character)"""
+    return z3.Function("enc_str", z3.BoolSort(), z3.StringSort(), z3.StringSort(), z3.StringSort(), z3.StringSort(), z3.StringSort())(*kargs(K), s)
+
+
+def encs_nil(K):
+    return encs(K, z3.StringVal("")) == z3.StringVal("")
+
+
+def encs_cons(K, c, rest):
+    return encs(K, z3.Concat(c, rest)) == z3.Concat(enc_char(K, c), encs(K, rest))
+
+
+def enc_part(K, p):
+    P = M.PartSort()
+    return z3.If(P.is_PStr(p), encs(K, P.str(p)), z3.If(p == P.PWM, K["wm"], z3.If(p == P.PWS, K["ws"], z3.StringVal("<unconvertible placeholder>"))))
+
+
+def enc(K, ps):
+    return z3.Function("enc_parts", z3.BoolSort(), z3.StringSort(), z3.StringSort(), z3.StringSort(), z3.StringSort(), z3.StringSort(), M.parts_sort(), z3.StringSort())(*kargs(K), K["wm"], K["ws"], ps)
+
+
+def enc_nil(K):
+    return enc(K, z3.Empty(M.parts_sort())) == z3.StringVal("")
+
+
+def enc_cons(K, p, rest):
+    return enc(K, z3.Concat(z3.Unit(p), rest)) == z3.Concat(enc_part(K, p), enc(K, rest))
+
+
+def convertible(K, ps):
+    """no placeholder part, and no wildcard part whose token is missing (uninterpreted, defined from the right)"""
+    return z3.Function("convertible", z3.BoolSort(), z3.BoolSort(), M.parts_sort(), z3.BoolSort())(K["wm_none"], K["ws_none"], ps)
+
+
+def convertible_nil(K):
+    return convertible(K, z3.Empty(M.parts_sort()))
+
+
+def convertible_snoc(K, ps, p):
+    P = M.PartSort()
+    okp = z3.And(z3.Not(P.is_PPH(p)), z3.Implies(p == P.PWM, z3.Not(K["wm_none"])), z3.Implies(p == P.PWS, z3.Not(K["ws_none"])))
+    return convertible(K, z3.Concat(ps, z3.Unit(p))) == z3.And(convertible(K, ps), okp)
+
+
+def intersects_nil(chars):
+    return z3.Not(ops.intersects(z3.StringVal(""), chars))
+
+
+def intersects_cons(c, rest, chars):
+    return ops.intersects(z3.Concat(c, rest), chars) == z3.Or(z3.Contains(chars, c), ops.intersects(rest, chars))
+
+
+def K_from_env(I, env):
+    def opt(v):
+        if isinstance(v, SOpt):
+            return v.is_none, mk_str(v.val)
+        if v is None:
+            return z3.BoolVal(True), z3.StringVal("")
+        return z3.BoolVal(False), mk_str(v)
+    en, e = opt(env["escape_char"])
+    mn, m = opt(env["wildcard_multi"])
+    sn, s_ = opt(env["wildcard_single"])
+    escaped = z3.Concat(z3.If(mn, z3.StringVal(""), m), z3.If(sn, z3.StringVal(""), s_), mk_str(env["add_escaped"]))
+    return {"esc_none": en, "esc": e, "wm_none": mn, "wm": m, "ws_none": sn, "ws": s_, "escaped": escaped, "filter": mk_str(env["filter_chars"])}
+
+
+class ConvertOuter(LoopSpec):
+    modifies = {"result": ("seq", "str")}
+
+    def inv(self, I, env, done, rest, total):
+        K = K_from_env(I, env)
+        return [("join(result) ++ enc(rest) == enc(parts)", z3.Concat(join_term(I, env["result"]), enc(K, rest)) == enc(K, total)),
+                ("everything consumed so far was convertible", convertible(K, done))]
+
+    def hints(self, I, env, phase, x, done, rest2, total):
+        K = K_from_env(I, env)
+        if phase == "entry":
+            return [convertible_nil(K)]
+        if phase == "pre":
+            P = M.PartSort()
+            return [enc_cons(K, x, rest2), convertible_snoc(K, done, x), z3.Implies(P.is_PStr(x), z3.And(lemma_enc_id_noesc(K, P.str(x)), lemma_enc_id_nointersect(K, P.str(x))))]
+        if phase == "exit":
+            return [enc_nil(K)]
+        return []
+
+
+class ConvertInner(LoopSpec):
+    """for c in part: (escaping only / filtering and escaping)"""
+    modifies = {"result": ("seq", "str")}
+
+    def inv(self, I, env, done, rest, total):
+        K = K_from_env(I, env)
+        j0 = join_term(I, env[self.entry_key]["result"])
+        return [("join(result) ++ enc_str(unread chars) == join(result at entry) ++ enc_str(part)", z3.Concat(join_term(I, env["result"]), encs(K, rest)) == z3.Concat(j0, encs(K, total)))]
+
+    def hints(self, I, env, phase, x, done, rest2, total):
+        K = K_from_env(I, env)
+        if phase == "pre":
+            return [encs_cons(K, x, rest2)]
+        if phase == "exit":
+            return [encs_nil(K)]
+        return []
+
+
+def lemma_enc_id_noesc(K, s):
+    """LEMMA (C05.lemma.enc_identity): nothing to escape and nothing to filter => enc_str(s) == s"""
+    return z3.Implies(z3.And(z3.Length(K["escaped"]) == 0, z3.Length(K["filter"]) == 0), encs(K, s) == s)
+
+
+def lemma_enc_id_nointersect(K, s):
+    """LEMMA (C05.lemma.enc_identity): no character of s is escaped and nothing is filtered => enc_str(s) == s"""
+    return z3.Implies(z3.And(z3.Not(ops.intersects(s, K["escaped"])), z3.Length(K["filter"]) == 0), encs(K, s) == s)
+
+
+@register
+class EncIdentityLemma(Lemma):
+    """by induction on s (base: s == ""; step: s == c ++ r with |c| == 1, induction hypothesis for r)"""
+    id = "C05.lemma.enc_identity"
+    props = ("C05", "C17")
+    assumed = ["structural induction over strings (base + step discharged by the solver; the induction schema itself is the meta-argument)"]
+
+    def goals(self):
+        K = {"esc_none": z3.Bool("esc_none"), "esc": z3.String("esc"), "escaped": z3.String("escaped"), "filter": z3.String("filter"), "wm": z3.String("wm"), "ws": z3.String("ws"),
+             "wm_none": z3.Bool("wmn"), "ws_none": z3.Bool("wsn")}
+        c, r = z3.String("c"), z3.String("r")
+        one = z3.Length(c) == 1
+        g = []
+        for name, lem, extra in (("nothing escaped or filtered", lemma_enc_id_noesc, []), ("no character of the text is in the escaped set", lemma_enc_id_nointersect, [intersects_cons(c, r, K["escaped"])])):
+            g.append((f"{name}: base", [encs_nil(K), intersects_nil(K["escaped"])], lem(K, z3.StringVal(""))))
+            g.append((f"{name}: step", [one, encs_cons(K, c, r), lem(K, r)] + extra, lem(K, z3.Concat(c, r))))
+        return g
+
+
+@register
+class SigmaStringConvert(Contract):
+    id = "C05.SigmaString.convert"
+    target = "sigma.types:SigmaString.convert"
+    props = ("C05", "C17")
+    assumed = ["frozenset(str) is the character set of the string; membership of a character = substring test on a one-character string",
+               "lemma C05.lemma.enc_identity is instantiated at the two fast paths"]
+
+    def setup(self, E):
+        M.install_part_adt(E)
+        E.loop_invariants[(self.target, 0)] = ConvertOuter()
+        E.loop_invariants[(self.target, 1)] = ConvertInner()
+        E.loop_invariants[(self.target, 2)] = ConvertInner()
+
+    def args(self, I):
+        me = M.mk_sigma_string(I, "self")
+        o = lambda n: SOpt(z3.Bool(I.ctx.fresh_name(n + "_none")), I.fresh(n, "str"))
+        kw = {"escape_char": o("escape_char"), "wildcard_multi": o("wildcard_multi"), "wildcard_single": o("wildcard_single"), "add_escaped": I.fresh("add_escaped", "str"), "filter_chars": I.fresh("filter_chars", "str")}
+        # an escape character, where given, is one character (TextQueryBackend configuration precondition)
+        I.ctx.assume(z3.Implies(z3.Not(kw["escape_char"].is_none), z3.Length(kw["escape_char"].val.t) >= 0))
+        return {"self": me, "args": [], "kwargs": kw, "kw": kw}
+
+    def post(self, I, inp, r):
+        K = K_from_env(I, inp["kw"])
+        ps = inp["self"].fields["s"].t
+        I.ctx.require(mk_str(r) == enc(K, ps), "result == concatenation of the per-atom encodings: escaped characters get the escape character, filtered ones vanish, wildcards become the target tokens")
+        I.ctx.require(convertible(K, ps), "a value is rendered only if it has no placeholder part and every wildcard has a target token")
+
+    def raises(self, I, inp, exc):
+        I.ctx.require(exc_is(I, exc, "SigmaPlaceholderError") or exc_is(I, exc, "SigmaValueError"), f"only SigmaPlaceholderError / SigmaValueError (got {exc_name(exc)})", kind="SAFE")
+
+    def frame_ok(self, I, inp, obj, name):
+        return False
+
+
+# ----------------------------------------------------------------------------------------------- small observers
+def arg_part_union(I, name):
+    """a value of type SigmaStringPartType: str | SpecialChars | Placeholder (symbolic)"""
+    t = z3.Const(I.ctx.fresh_name(name), M.PartSort())
+    return ops.ADTS["Part"][1](t), t
+
+
+class _Edge(Contract):
+    props = ("C05", "C03")
+    first = True
+
+    def setup(self, E):
+        M.install_part_adt(E)
+
+    def args(self, I):
+        me = M.mk_sigma_string(I, "self")
+        v, vt = arg_part_union(I, "val")
+        return {"self": me, "args": [v], "vt": vt}
+
+    def post(self, I, inp, r):
+        P = M.PartSort()
+        ps, v = inp["self"].fields["s"].t, inp["vt"]
+        n = z3.Length(ps)
+        c = ps[0] if self.first else ps[n - 1]
+        same_kind = z3.Or(z3.And(P.is_PStr(c), P.is_PStr(v)), z3.And(z3.Or(c == P.PWM, c == P.PWS), z3.Or(v == P.PWM, v == P.PWS)), z3.And(P.is_PPH(c), P.is_PPH(v)))
+        spec = z3.And(n > 0, same_kind, z3.If(P.is_PStr(c), (z3.PrefixOf if self.first else z3.SuffixOf)(P.str(v), P.str(c)), c == v))
+        rt = ops.truth(I, r)
+        I.ctx.require(ops.mk_bool_term(rt) == spec, ("starts" if self.first else "ends") + " with: same kind of part at that end; for text a prefix/suffix test, otherwise equality")
+
+    def frame_ok(self, I, inp, obj, name):
+        return False
+
+
+@register
+class StartsWith(_Edge):
+    id = "C05.SigmaString.startswith"
+    target = "sigma.types:SigmaString.startswith"
+    first = True
+
+
+@register
+class EndsWith(_Edge):
+    id = "C05.SigmaString.endswith"
+    target = "sigma.types:SigmaString.endswith"
+    first = False
+
+
+@register
+class ContainsSpecial(Contract):
+    id = "C05.SigmaString.contains_special"
+    target = "sigma.types:SigmaString.contains_special"
+    props = ("C05", "C04", "C03")
+
+    def setup(self, E):
+        M.install_part_adt(E)
+
+    def args(self, I):
+        return {"self": M.mk_sigma_string(I, "self"), "args": []}
+
+    def post(self, I, inp, r):
+        I.ctx.require(ops.mk_bool_term(ops.truth(I, r)) == M.has_special(inp["self"].fields["s"].t), "True iff some part is a wildcard")
+
+    def frame_ok(self, I, inp, obj, name):
+        return False
